@@ -29,7 +29,8 @@ def main():
     try:
         # baseline demo output
         demo = meta.get("demo_cmd", "")
-        demos = [f for f in os.listdir(src) if f not in ("patch.diff", "meta.json") and not f.startswith("out_")]
+        demos = [f for f in os.listdir(src) if f not in ("patch.diff", "meta.json") and not f.startswith("out_")
+                 and not (f.endswith(".go") and not f.endswith("_test.go")) and not f.endswith((".txt", ".sh", ".out", ".md5"))]
         gotests = []
         for f in demos:
             if f.endswith("_test.go"):
